@@ -20,6 +20,9 @@ Definition inside (p : pc) : bool := is_follower p || is_reader p.
 Definition adopted_by (p : pc) : option tid :=
   match p with PBodyRead _ g _ _ _ | PBodySleep _ g _ _ _ => Some g | _ => None end.
 
+Definition pre_call (p : pc) : bool :=
+  match p with PInit | PStartSleep | PCall => true | _ => false end.
+
 Record same_view (s s' : state) : Prop := {
   sv_pc : forall t, pcof s' t = pcof s t;
   sv_ctx : forall t, s_ctx s' t = s_ctx s t;
@@ -53,11 +56,12 @@ Record Inv (s : state) : Prop := {
             inside (pcof s g) = true /\ (forall k, ~ In (k, g) (s_map s)) /\
             c_tag (s_ctx s t) = c_tag0 (s_ctx s g) /\
             (g <> t -> is_follower (pcof s g) = true /\ c_phase (s_ctx s g) <> COLLECTED);
-  i_acc : forall a, In a (s_acc s) -> a_live a = true }.
+  i_acc : forall a, In a (s_acc s) -> a_live a = true;
+  i_pre : forall t, c_made (s_ctx s t) = true -> pre_call (pcof s t) = false }.
 
 Lemma Inv_view s s' : same_view s s' -> Inv s -> Inv s'.
 Proof.
-  intros [v1 v2 v3 v4 v5 v6 v7 v8] [h1 h2 h3 h4 h5 h6 h7 h8 h9 h10].
+  intros [v1 v2 v3 v4 v5 v6 v7 v8] [h1 h2 h3 h4 h5 h6 h7 h8 h9 h10 h11].
   constructor.
   - congruence.
   - intros t. rewrite v1, v2. apply h2.
@@ -70,6 +74,7 @@ Proof.
   - intros t g. rewrite !v1, !v2, v3. intros H. destruct (h9 t g H) as (a & b & c & d).
     split; [exact a|split; [exact b|split; [exact c|exact d]]].
   - intros a. rewrite v5. apply h10.
+  - intros t. rewrite v1, v2. apply h11.
 Qed.
 
 (* ---- view of the helper operations --------------------------------------------------------------- *)
@@ -179,7 +184,7 @@ Proof. destruct p; cbn; congruence. Qed.
 
 Lemma erase_keeps_Inv s by_ g ad : Inv s -> Inv (erase_tag s by_ g ad).
 Proof.
-  intros [h1 h2 h3 h4 h5 h6 h7 h8 h9 h10]. constructor; cbn; auto.
+  intros [h1 h2 h3 h4 h5 h6 h7 h8 h9 h10 h11]. constructor; cbn; auto.
   - intros k c H. apply map_erase_In in H. destruct H as [H _]. exact (h6 _ _ H).
   - intros t g0 H. destruct (h9 t g0 H) as (a & b & c & d).
     split; [exact a|split; [|split; [exact c|exact d]]].
@@ -217,9 +222,10 @@ Lemma Inv_pc_same_class s s' t p :
   is_follower p = is_follower (pcof s t) ->
   reader_otag p = reader_otag (pcof s t) ->
   adopted_by p = adopted_by (pcof s t) ->
+  pre_call p && negb (pre_call (pcof s t)) = false ->
   Inv s'.
 Proof.
-  intros [h1 h2 h3 h4 h5 h6 h7 h8 h9 h10] [u1 u2 u3 u4 u5 u6 u7] Hf Hr Ha.
+  intros [h1 h2 h3 h4 h5 h6 h7 h8 h9 h10 h11] [u1 u2 u3 u4 u5 u6 u7] Hf Hr Ha Hp.
   assert (Hin : inside p = inside (pcof s t)).
   { unfold inside, is_reader. rewrite Hf, Hr. reflexivity. }
   assert (Hins : forall x, inside (pcof s' x) = inside (pcof s x)).
@@ -241,6 +247,8 @@ Proof.
   - intros x o. rewrite u2, u4, Hro. apply h8.
   - intros x g. rewrite Had, !u2, u3, Hins, Hfol. apply h9.
   - intros a. rewrite u5. apply h10.
+  - intros x. rewrite u1, u2. eqb_case x t; [|apply h11].
+    intros M. specialize (h11 t M). rewrite h11 in Hp. cbn in Hp. rewrite andb_true_r in Hp. exact Hp.
 Qed.
 
 (* returning from do_call *)
@@ -297,7 +305,7 @@ Lemma Inv_ret s t r w rd :
   rd = is_reader (pcof s t) ->
   Inv (ret_call s t r w rd).
 Proof.
-  intros [h1 h2 h3 h4 h5 h6 h7 h8 h9 h10] Hin Hmap Had Hrd.
+  intros [h1 h2 h3 h4 h5 h6 h7 h8 h9 h10 h11] Hin Hmap Had Hrd.
   destruct (ret_call_view s t r w rd _ eq_refl) as (u1 & u2 & u3 & u4 & u5 & u6 & u7).
   set (s' := ret_call s t r w rd) in *.
   assert (Hm : forall x, c_made (s_ctx s' x) = c_made (s_ctx s x)).
@@ -327,12 +335,13 @@ Proof.
     destruct (Nat.eqb_spec x t); [contradiction|].
     split; [exact a|split; [exact b|split; [exact c|exact d]]].
   - intros a. rewrite u5. apply h10.
+  - intros x. rewrite u1, Hm. eqb_case x t; [reflexivity|apply h11].
 Qed.
 
 (* ---- more generic transitions ------------------------------------------------------------------------- *)
 Lemma Inv_add_acc s by_ g k : Inv s -> c_live (s_ctx s g) = true -> Inv (add_acc s by_ g k).
 Proof.
-  intros [h1 h2 h3 h4 h5 h6 h7 h8 h9 h10] L. constructor; cbn; auto.
+  intros [h1 h2 h3 h4 h5 h6 h7 h8 h9 h10 h11] L. constructor; cbn; auto.
   intros a [<-|H]; cbn; auto.
 Qed.
 
@@ -346,7 +355,7 @@ Lemma Inv_ctx_upd s g c' :
     (c_phase c' = COLLECTED -> (forall k, ~ In (k, g) (s_map s)) /\ forall x, x <> g -> adopted_by (pcof s x) <> Some g))) ->
   Inv (upd_ctx s g c').
 Proof.
-  intros [h1 h2 h3 h4 h5 h6 h7 h8 h9 h10] Em E0 El Eh Et Ep.
+  intros [h1 h2 h3 h4 h5 h6 h7 h8 h9 h10 h11] Em E0 El Eh Et Ep.
   assert (P : forall x, pcof (upd_ctx s g c') x = pcof s x) by reflexivity.
   assert (Hm : forall x, c_made (s_ctx (upd_ctx s g c') x) = c_made (s_ctx s x)).
   { intros x. rewrite ctx_upd_ctx. eqb_case x g; auto. }
@@ -378,13 +387,14 @@ Proof.
       rewrite ctx_upd_ctx. eqb_case y g; [|exact d2]. destruct Ep as [Ep|[_ Ep]]; [congruence|].
       intros E. destruct (Ep E) as [_ B]. eapply B; eauto.
   - exact h10.
+  - intros x. rewrite Hm, P. apply h11.
 Qed.
 
 Lemma Inv_become_reader s t o :
   Inv s -> is_follower (pcof s t) = true -> s_rlock s = None -> o = c_tag (s_ctx s t) ->
   Inv (set_pc (set_rlock s (Some t)) t (PReaderLoop o)).
 Proof.
-  intros I F R Eo. pose proof I as [h1 h2 h3 h4 h5 h6 h7 h8 h9 h10].
+  intros I F R Eo. pose proof I as [h1 h2 h3 h4 h5 h6 h7 h8 h9 h10 h11].
   assert (NR : forall x, reader_otag (pcof s x) = None).
   { intros x. destruct (reader_otag (pcof s x)) eqn:E; auto. destruct (h8 x z E). congruence. }
   assert (NA : forall x, adopted_by (pcof s x) = None).
@@ -408,33 +418,7 @@ Proof.
     + rewrite NR. discriminate.
   - intros x g. rewrite P. eqb_case x t; [cbn; discriminate|]. rewrite NA. discriminate.
   - exact h10.
-Qed.
-
-(* the reader stops adopting (or never was): fewer obligations *)
-Lemma Inv_drop_adopt s s' t p :
-  Inv s -> pc_upd s s' t p ->
-  is_follower p = is_follower (pcof s t) -> reader_otag p = reader_otag (pcof s t) -> adopted_by p = None ->
-  Inv s'.
-Proof.
-  intros [h1 h2 h3 h4 h5 h6 h7 h8 h9 h10] [u1 u2 u3 u4 u5 u6 u7] Hf Hr Ha.
-  assert (Hins : forall x, inside (pcof s' x) = inside (pcof s x)).
-  { intros x. rewrite u1. eqb_case x t; auto. unfold inside, is_reader. rewrite Hf, Hr. reflexivity. }
-  assert (Hfol : forall x, is_follower (pcof s' x) = is_follower (pcof s x)).
-  { intros x. rewrite u1. eqb_case x t; auto. }
-  assert (Hro : forall x, reader_otag (pcof s' x) = reader_otag (pcof s x)).
-  { intros x. rewrite u1. eqb_case x t; auto. }
-  constructor.
-  - congruence.
-  - intros x. rewrite u2, Hins. apply h2.
-  - intros x. rewrite u2, Hins. apply h3.
-  - intros x. rewrite u2, u6. apply h4.
-  - intros x y. rewrite !u2. apply h5.
-  - intros g c. rewrite u3, u2, Hins. apply h6.
-  - intros x. rewrite u2, Hfol. apply h7.
-  - intros x o. rewrite u2, u4, Hro. apply h8.
-  - intros x g. rewrite u1. eqb_case x t; [rewrite Ha; discriminate|].
-    rewrite !u2, u3, Hins, Hfol. apply h9.
-  - intros a. rewrite u5. apply h10.
+  - intros x. rewrite P. eqb_case x t; [reflexivity|apply h11].
 Qed.
 
 (* the reader starts collecting targ's body *)
@@ -446,7 +430,7 @@ Lemma Inv_start_body s s' t otag targ p :
   Inv s'.
 Proof.
   intros I [u1 u2 u3 u4 u5 u6 u7] Ro Rp Ap Tin Tmap Ttag Tph.
-  pose proof I as [h1 h2 h3 h4 h5 h6 h7 h8 h9 h10].
+  pose proof I as [h1 h2 h3 h4 h5 h6 h7 h8 h9 h10 h11].
   assert (Ft : is_follower (pcof s t) = false) by (destruct (pcof s t); cbn in *; congruence).
   assert (Fp : is_follower p = false) by (destruct p; cbn in *; congruence).
   assert (Hins : forall x, inside (pcof s' x) = inside (pcof s x)).
@@ -472,6 +456,7 @@ Proof.
       eapply reader_unique; eauto. unfold is_reader. rewrite Ro. reflexivity.
     + rewrite !u2, u3, Hins, Hfol. apply h9.
   - intros a. rewrite u5. apply h10.
+  - intros x. rewrite u1, u2. eqb_case x t; [|apply h11]. intros _. destruct p; cbn in *; congruence.
 Qed.
 
 (* the reader has collected another thread's response: COLLECTED, and back to the top of the loop *)
@@ -487,7 +472,7 @@ Lemma Inv_collect_other s s' t otag targ c' :
   Inv s'.
 Proof.
   intros I Ro N Tmap u1 u2 Em E0 El Eh Et Ep u3 u4 u5 u6 u7.
-  pose proof I as [h1 h2 h3 h4 h5 h6 h7 h8 h9 h10].
+  pose proof I as [h1 h2 h3 h4 h5 h6 h7 h8 h9 h10 h11].
   assert (Hins : forall x, inside (pcof s' x) = inside (pcof s x)).
   { intros x. rewrite u1. eqb_case x t; auto. unfold inside, is_reader. rewrite Ro.
     destruct (pcof s t); cbn in *; congruence. }
@@ -520,6 +505,7 @@ Proof.
     intros H. assert (R : is_reader (pcof s x) = true) by (eapply adopted_is_reader; eauto).
     exfalso. apply n. eapply reader_unique; eauto. unfold is_reader. rewrite Ro. reflexivity.
   - intros a. rewrite u5. apply h10.
+  - intros x. rewrite u1, Hm. eqb_case x t; [reflexivity|apply h11].
 Qed.
 
 (* ---- do_call: a new context ---------------------------------------------------------------------------- *)
@@ -534,7 +520,7 @@ Lemma Inv_call_ok s s' t dl cn :
   Inv s'.
 Proof.
   intros I Out u1 u2 Cm C0 Ct Cl Ch Cp u3 u6 u4 u5 u7.
-  pose proof I as [h1 h2 h3 h4 h5 h6 h7 h8 h9 h10].
+  pose proof I as [h1 h2 h3 h4 h5 h6 h7 h8 h9 h10 h11].
   assert (Fo : is_follower (pcof s t) = false /\ reader_otag (pcof s t) = None /\ adopted_by (pcof s t) = None).
   { unfold inside, is_reader in Out. destruct (pcof s t); cbn in *; try discriminate; auto. }
   destruct Fo as (Fo1 & Fo2 & Fo3).
@@ -561,6 +547,7 @@ Proof.
     split; [exact a|split; [|split; [exact c|exact d]]].
     intros k. rewrite in_app_iff. intros [K|[K|[]]]; [eapply b; eauto|]. inversion K; congruence.
   - intros a. rewrite u5. apply h10.
+  - intros x. rewrite u1, u2. eqb_case x t; [reflexivity|apply h11].
 Qed.
 
 Lemma Inv_call_fail s s' t cn :
@@ -573,7 +560,7 @@ Lemma Inv_call_fail s s' t cn :
   Inv s'.
 Proof.
   intros I Out u1 u2 Cm C0 Cl u3 u6 u4 u5 u7.
-  pose proof I as [h1 h2 h3 h4 h5 h6 h7 h8 h9 h10].
+  pose proof I as [h1 h2 h3 h4 h5 h6 h7 h8 h9 h10 h11].
   assert (Fo : is_follower (pcof s t) = false /\ reader_otag (pcof s t) = None /\ adopted_by (pcof s t) = None).
   { unfold inside, is_reader in Out. destruct (pcof s t); cbn in *; try discriminate; auto. }
   destruct Fo as (Fo1 & Fo2 & Fo3).
@@ -597,6 +584,7 @@ Proof.
     split; [exact a|split; [|split; [exact c|exact d]]].
     intros k K. apply u3 in K. eapply b; eauto.
   - intros a. rewrite u5. apply h10.
+  - intros x. rewrite u1, u2. eqb_case x t; [reflexivity|apply h11].
 Qed.
 
 Lemma sv_do_send s3 t tag dl : same_view s3 (fst (do_send s3 t tag dl)).
@@ -614,23 +602,24 @@ Qed.
 
 (* ---- the micro steps ----------------------------------------------------------------------------------- *)
 Lemma Inv_outside_move s0 s s' t p :
-  Inv s0 -> same_view s0 s -> pc_upd s s' t p -> inside (pcof s0 t) = false -> inside p = false -> Inv s'.
+  Inv s0 -> same_view s0 s -> pc_upd s s' t p -> inside (pcof s0 t) = false -> inside p = false ->
+  pre_call p && negb (pre_call (pcof s0 t)) = false -> Inv s'.
 Proof.
-  intros I V U O Op. eapply Inv_pc_same_class; [eapply Inv_view; eauto|exact U|..];
-  rewrite (sv_pc _ _ V); unfold inside, is_reader in *;
+  intros I V U O Op Hp. eapply Inv_pc_same_class; [eapply Inv_view; eauto|exact U|..];
+  rewrite (sv_pc _ _ V); try exact Hp; unfold inside, is_reader in *;
   destruct p; cbn in *; try discriminate; destruct (pcof s0 t); cbn in *; try discriminate; reflexivity.
 Qed.
 
 Lemma Inv_step_call s t : Inv s -> pcof s t = PCall -> Inv (step_call s t).
 Proof.
-  intros I P. pose proof I as [h1 h2 h3 h4 h5 h6 h7 h8 h9 h10].
+  intros I P. pose proof I as [h1 h2 h3 h4 h5 h6 h7 h8 h9 h10 h11].
   assert (Out : inside (pcof s t) = false) by (rewrite P; reflexivity).
   unfold step_call.
   set (k := nth t (s_calls s) dummy_call). set (now := s_now s).
   set (exp := if k_tmo k =? 0 then 0 else sat_add now (k_tmo k)).
   destruct (exp <? now).
   { unfold ret_nocall, park.
-    eapply Inv_outside_move with (s0 := s); [exact I| |apply pc_upd_sleep|exact Out|reflexivity].
+    eapply Inv_outside_move with (s0 := s); [exact I| |apply pc_upd_sleep|exact Out|reflexivity|rewrite P; reflexivity].
     eapply same_view_trans; [apply sv_set_errno|apply sv_add_trace]. }
   set (rem := sat_sub exp now). set (dl := if rem =? 0 then 0 else sat_add now rem).
   set (tag := s_mtag s + 1).
@@ -1041,9 +1030,9 @@ Proof.
   intros I. unfold micro.
   destruct (t_pc (s_thr s t)) eqn:E; change (t_pc (s_thr s t)) with (pcof s t) in E.
   - destruct (0 <? k_start (nth t (s_calls s) dummy_call)).
-    + eapply Inv_outside_move with (s0 := s); [exact I|apply same_view_refl|apply pc_upd_sleep|rewrite E; reflexivity|reflexivity].
-    + eapply Inv_outside_move with (s0 := s); [exact I|apply same_view_refl|apply pc_upd_set_pc|rewrite E; reflexivity|reflexivity].
-  - eapply Inv_outside_move with (s0 := s); [exact I|apply sv_usleep_ret|apply pc_upd_set_pc|rewrite E; reflexivity|reflexivity].
+    + eapply Inv_outside_move with (s0 := s); [exact I|apply same_view_refl|apply pc_upd_sleep|rewrite E; reflexivity|reflexivity|rewrite E; reflexivity].
+    + eapply Inv_outside_move with (s0 := s); [exact I|apply same_view_refl|apply pc_upd_set_pc|rewrite E; reflexivity|reflexivity|rewrite E; reflexivity].
+  - eapply Inv_outside_move with (s0 := s); [exact I|apply sv_usleep_ret|apply pc_upd_set_pc|rewrite E; reflexivity|reflexivity|rewrite E; reflexivity].
   - apply Inv_step_call; auto.
   - apply Inv_step_waitloop; auto.
   - apply Inv_step_parked; auto.
@@ -1054,7 +1043,7 @@ Proof.
   - apply Inv_step_bodyread; auto.
   - eapply Inv_pc_same_class; [eapply Inv_view; [apply sv_usleep_ret|exact I]|apply pc_upd_set_pc|..];
       rewrite (sv_pc _ _ (sv_usleep_ret s t)), E; reflexivity.
-  - unfold park. eapply Inv_outside_move with (s0 := s); [exact I|apply sv_usleep_ret|apply pc_upd_sleep|rewrite E; reflexivity|reflexivity].
+  - unfold park. eapply Inv_outside_move with (s0 := s); [exact I|apply sv_usleep_ret|apply pc_upd_sleep|rewrite E; reflexivity|reflexivity|rewrite E; reflexivity].
 Qed.
 
 Lemma Inv_step s e s' : Inv s -> step s e = Some s' -> Inv s'.
